@@ -1,8 +1,940 @@
-//! C06 SharedFd take/drop protocol (Miri, sync feature) — not built yet.
+//! C06 monitor 1 — `compio_driver::SharedFd<T>` take/drop protocol.
+//!
+//! `T = ProbeFd`: a fake descriptor (no syscalls; `AsFd` hands out a borrowed
+//! fd 0 that is never used) whose `Drop` records "closed" with the thread it
+//! happened on. Two kinds of programs over the REAL `SharedFd` (this build has
+//! compio-driver's feature `sync`: `Arc` + `AtomicWaker`; the `unsync` flavour
+//! — `Rc` + `RefCell` slot — cannot be built into the same binary because the
+//! feature is additive and selects the flavour crate-wide, so it is NOT covered
+//! here):
+//!
+//! * `seq`  — single thread, every order of {release of one of the k <= 4 other
+//!   handles (plain drop / clone+drop / a second `take()` / a `take()` future
+//!   dropped unpolled), poll of the taker, taker gives up} enumerated with the
+//!   odometer;
+//! * `thr`  — the k other handles are released on 1–3 other threads while the
+//!   main thread drives `take()` the way an executor does: poll, then sleep
+//!   until the registered waker fires. Under Miri every run is a different
+//!   interleaving (plus data-race / use-after-free / leak detection), natively
+//!   it is a stress.
+//!
+//! Oracle (both):
+//! * `take()` is `Pending` while any other handle lives (a `Ready` before every
+//!   other release has at least *started* is a violation);
+//! * liveness, executor-faithful: once every other release has *returned*,
+//!   either a wake is outstanding (the waker fired after the taker's last poll
+//!   began) and then the next poll is `Ready(Some)`, or the taker already got
+//!   its fd. "All handles gone, taker `Pending`, no wake outstanding" is a
+//!   `take()` that never completes under any executor = violation (decided
+//!   logically, no clock involved);
+//! * the first taker never gets `None`; a second concurrent `take()` gets `None`;
+//! * the fd is closed exactly once, never while a handle is alive, by the taker
+//!   if it got `Some` (the caller then owns it), by whoever releases last if the
+//!   taker gave up; never leaked.
 
-use vcommon::Args;
+use std::{
+    future::Future,
+    os::fd::{AsFd, BorrowedFd},
+    pin::Pin,
+    sync::{
+        Arc, Condvar, Mutex,
+        atomic::{AtomicUsize, Ordering},
+    },
+    task::{Context, Poll, Wake, Waker},
+    thread::{self, ThreadId},
+};
 
-pub fn main(_args: &Args) {
-    eprintln!("c06a: not implemented");
-    std::process::exit(3);
+use compio_driver::SharedFd;
+use vcommon::{Args, Report, Rng, json, panics};
+
+use crate::choose::{Chooser, ReplayChooser};
+
+// ---------------------------------------------------------------------------
+// probe descriptor
+// ---------------------------------------------------------------------------
+
+#[derive(Debug, Default)]
+struct ProbeLog {
+    closed: AtomicUsize,
+    closer: Mutex<Option<ThreadId>>,
+}
+
+#[derive(Debug)]
+struct ProbeFd {
+    log: Arc<ProbeLog>,
+    magic: u32,
+}
+
+const MAGIC: u32 = 0xC06A_F00D;
+
+impl AsFd for ProbeFd {
+    fn as_fd(&self) -> BorrowedFd<'_> {
+        // never used for a syscall
+        unsafe { BorrowedFd::borrow_raw(0) }
+    }
+}
+
+impl Drop for ProbeFd {
+    fn drop(&mut self) {
+        self.log.closed.fetch_add(1, Ordering::SeqCst);
+        *self.log.closer.lock().unwrap() = Some(thread::current().id());
+    }
+}
+
+// ---------------------------------------------------------------------------
+// waker + "something happened" signal
+// ---------------------------------------------------------------------------
+
+/// Counting waker plus a condvar the executor loop sleeps on. The counters
+/// are atomics (cheap to read under Miri); the mutex only closes the
+/// check-then-sleep window.
+#[derive(Default)]
+struct Sig {
+    wakes: AtomicUsize,
+    /// releases that have returned
+    done: AtomicUsize,
+    m: Mutex<()>,
+    cv: Condvar,
+}
+
+impl Wake for Sig {
+    fn wake(self: Arc<Self>) {
+        self.wake_by_ref()
+    }
+
+    fn wake_by_ref(self: &Arc<Self>) {
+        self.wakes.fetch_add(1, Ordering::SeqCst);
+        let _g = self.m.lock().unwrap();
+        self.cv.notify_all();
+    }
+}
+
+impl Sig {
+    fn wakes(&self) -> usize {
+        self.wakes.load(Ordering::SeqCst)
+    }
+
+    fn release_done(&self) {
+        self.done.fetch_add(1, Ordering::SeqCst);
+        let _g = self.m.lock().unwrap();
+        self.cv.notify_all();
+    }
+
+    /// Sleep until a wake newer than `snap` arrived or `k` releases have
+    /// returned. Returns (woken, all_done).
+    fn sleep(&self, snap: usize, k: usize) -> (bool, bool) {
+        let mut g = self.m.lock().unwrap();
+        loop {
+            // read `done` first: a release that has returned cannot wake any more
+            let done = self.done.load(Ordering::SeqCst) >= k;
+            let woken = self.wakes.load(Ordering::SeqCst) > snap;
+            if woken || done {
+                return (woken, done);
+            }
+            g = self.cv.wait(g).unwrap();
+        }
+    }
+}
+
+// ---------------------------------------------------------------------------
+// release kinds
+// ---------------------------------------------------------------------------
+
+#[derive(Clone, Copy, PartialEq, Eq, Debug)]
+enum Rel {
+    /// `drop(handle)`
+    Drop,
+    /// `let c = handle.clone(); drop(handle); drop(c)`
+    CloneDrop,
+    /// `handle.take()` polled once (a second, concurrent close): must be `None`
+    Take2,
+    /// `handle.take()` whose future is dropped without being polled
+    TakeUnpolled,
+}
+
+const RELS: [Rel; 4] = [Rel::Drop, Rel::CloneDrop, Rel::Take2, Rel::TakeUnpolled];
+
+impl Rel {
+    fn code(self) -> &'static str {
+        match self {
+            Rel::Drop => "d",
+            Rel::CloneDrop => "c",
+            Rel::Take2 => "t",
+            Rel::TakeUnpolled => "u",
+        }
+    }
+
+    fn trace_code(self) -> &'static str {
+        match self {
+            Rel::Drop => "Rd",
+            Rel::CloneDrop => "Rc",
+            Rel::Take2 => "Rt",
+            Rel::TakeUnpolled => "Ru",
+        }
+    }
+
+    fn idx(self) -> usize {
+        RELS.iter().position(|r| *r == self).unwrap()
+    }
+
+    /// Lets go of the handle without going through `SharedFd::drop`.
+    fn silent(self) -> bool {
+        matches!(self, Rel::Take2 | Rel::TakeUnpolled)
+    }
+}
+
+type TakeFut = Pin<Box<dyn Future<Output = Option<ProbeFd>> + Send>>;
+
+fn noop_waker() -> Waker {
+    struct N;
+    impl Wake for N {
+        fn wake(self: Arc<Self>) {}
+    }
+    Waker::from(Arc::new(N))
+}
+
+/// Performs one release. `Err(class)` if the second take misbehaved.
+fn release(h: SharedFd<ProbeFd>, kind: Rel) -> Result<(), &'static str> {
+    match kind {
+        Rel::Drop => drop(h),
+        Rel::CloneDrop => {
+            let c = h.clone();
+            drop(h);
+            drop(c);
+        }
+        Rel::Take2 => {
+            let mut f: TakeFut = Box::pin(h.take());
+            let w = noop_waker();
+            let mut cx = Context::from_waker(&w);
+            match f.as_mut().poll(&mut cx) {
+                Poll::Ready(None) => {}
+                Poll::Ready(Some(fd)) => {
+                    // keep the probe's own bookkeeping right, then complain
+                    drop(fd);
+                    return Err("second-take-got-some");
+                }
+                Poll::Pending => {
+                    drop(f);
+                    return Err("second-take-pending");
+                }
+            }
+        }
+        Rel::TakeUnpolled => drop(h.take()),
+    }
+    Ok(())
+}
+
+// ---------------------------------------------------------------------------
+// verdict plumbing
+// ---------------------------------------------------------------------------
+
+#[derive(Default)]
+struct Findings {
+    v: Vec<(String, String)>,
+}
+
+impl Findings {
+    fn add(&mut self, class: &str, what: impl Into<String>) {
+        self.v.push((format!("C06/sharedfd-take/{class}"), what.into()));
+    }
+}
+
+struct Taker {
+    fut: Option<TakeFut>,
+    sig: Arc<Sig>,
+    waker: Waker,
+    polls: usize,
+    pending_polls: usize,
+    /// wake count when the last poll began
+    snap: usize,
+    got: Option<ProbeFd>,
+    gave_up: bool,
+}
+
+impl Taker {
+    fn new(h: SharedFd<ProbeFd>) -> Self {
+        let sig = Arc::new(Sig::default());
+        Self {
+            fut: Some(Box::pin(h.take())),
+            waker: Waker::from(sig.clone()),
+            sig,
+            polls: 0,
+            pending_polls: 0,
+            snap: 0,
+            got: None,
+            gave_up: false,
+        }
+    }
+
+    fn active(&self) -> bool {
+        self.fut.is_some()
+    }
+
+    /// true = an executor would poll now (first poll, or woken since the last
+    /// poll began)
+    fn runnable(&self) -> bool {
+        self.active() && (self.polls == 0 || self.sig.wakes() > self.snap)
+    }
+
+    /// Polls once. `Err(())` = first taker got `None`.
+    fn poll(&mut self) -> Result<bool, ()> {
+        let f = self.fut.as_mut().expect("poll on finished taker");
+        self.snap = self.sig.wakes();
+        self.polls += 1;
+        let mut cx = Context::from_waker(&self.waker);
+        match f.as_mut().poll(&mut cx) {
+            Poll::Ready(Some(fd)) => {
+                self.got = Some(fd);
+                self.fut = None;
+                Ok(true)
+            }
+            Poll::Ready(None) => {
+                self.fut = None;
+                Err(())
+            }
+            Poll::Pending => {
+                self.pending_polls += 1;
+                Ok(false)
+            }
+        }
+    }
+
+    fn give_up(&mut self) {
+        self.fut = None;
+        self.gave_up = true;
+    }
+}
+
+/// End-of-program accounting shared by both program kinds. All other handles
+/// have been released (and the releasing threads joined).
+fn finish(t: &mut Taker, log: &Arc<ProbeLog>, main_tid: ThreadId, f: &mut Findings) -> &'static str {
+    let outcome;
+    if let Some(fd) = t.got.take() {
+        if fd.magic != MAGIC {
+            f.add("wrong-fd", "take() returned a different object");
+        }
+        if log.closed.load(Ordering::SeqCst) != 0 {
+            f.add("closed-before-owner-dropped", "the fd was closed although take() handed it to the caller");
+        }
+        drop(fd);
+        if *log.closer.lock().unwrap() != Some(main_tid) {
+            f.add("closed-by-wrong-thread", "taker owned the fd but another thread ran its Drop");
+        }
+        outcome = "taken";
+    } else if t.gave_up {
+        outcome = "gaveup";
+    } else {
+        outcome = "none";
+    }
+    t.fut = None;
+    match log.closed.load(Ordering::SeqCst) {
+        1 => {}
+        0 => f.add("leak", "every handle is gone but the descriptor was never closed"),
+        n => f.add("double-close", format!("descriptor closed {n} times")),
+    }
+    outcome
+}
+
+// ---------------------------------------------------------------------------
+// single-threaded enumeration
+// ---------------------------------------------------------------------------
+
+/// `choose::Odometer` plus subtree pruning, so that shards can split the
+/// enumeration by choice prefix (a foreign prefix costs one run, not its
+/// whole subtree).
+#[derive(Default)]
+struct Odo {
+    digits: Vec<(usize, usize)>,
+    pos: usize,
+    started: bool,
+}
+
+impl Odo {
+    fn advance(&mut self) -> bool {
+        if !self.started {
+            self.started = true;
+            self.pos = 0;
+            return true;
+        }
+        self.digits.truncate(self.pos);
+        while let Some((v, n)) = self.digits.pop() {
+            if v + 1 < n {
+                self.digits.push((v + 1, n));
+                self.pos = 0;
+                return true;
+            }
+        }
+        false
+    }
+
+    /// Skip every remaining program that shares the first `depth` choices
+    /// with the last run.
+    fn prune(&mut self, depth: usize) {
+        self.pos = self.pos.min(depth);
+    }
+}
+
+impl Chooser for Odo {
+    fn choose(&mut self, n: usize) -> usize {
+        let n = n.max(1);
+        if self.pos == self.digits.len() {
+            self.digits.push((0, n));
+        }
+        let (v, _) = self.digits[self.pos];
+        self.pos += 1;
+        v
+    }
+
+    fn trace(&self) -> Vec<usize> {
+        self.digits[..self.pos].iter().map(|d| d.0).collect()
+    }
+}
+
+struct SeqResult {
+    sig: String,
+    trace: Vec<&'static str>,
+}
+
+/// `format!` is what dominates a small program under Miri: signatures are
+/// assembled from static pieces and single digits instead.
+fn push_kv(s: &mut String, key: &str, v: usize) {
+    s.push_str(key);
+    s.push((b'0' + v.min(9) as u8) as char);
+}
+
+fn kinds_string(s: &mut String, used: &[usize; 4]) {
+    for r in RELS {
+        push_kv(s, r.code(), used[r.idx()]);
+    }
+}
+
+/// One single-threaded program, driven by the chooser.
+fn run_seq(ch: &mut dyn Chooser, kmax: usize, kinds_mask: usize, f: &mut Findings) -> SeqResult {
+    let log = Arc::new(ProbeLog::default());
+    let main_tid = thread::current().id();
+    let root = SharedFd::new(ProbeFd { log: log.clone(), magic: MAGIC });
+    let k = 1 + ch.choose(kmax);
+    let mut others: Vec<SharedFd<ProbeFd>> = (0..k).map(|_| root.clone()).collect();
+    let mut t = Taker::new(root);
+    let kinds: Vec<Rel> = RELS.iter().copied().filter(|r| kinds_mask & (1 << r.idx()) != 0).collect();
+    let mut trace = Vec::new();
+    let mut used = [0usize; 4];
+    let mut last_rel = None;
+    let mut spurious_ok = true; // at most one un-woken poll between two releases
+    let mut waiting_at_last_release = false;
+    let mut stuck: Option<&'static str> = None;
+    loop {
+        // ---- options
+        #[derive(Clone, Copy)]
+        enum Act {
+            Rel(Rel),
+            Poll,
+            GiveUp,
+        }
+        let mut acts = Vec::new();
+        if !others.is_empty() {
+            for r in &kinds {
+                // a second take before the taker's first poll would make *it*
+                // the first taker: not this program's shape
+                if *r == Rel::Take2 && t.polls == 0 {
+                    continue;
+                }
+                acts.push(Act::Rel(*r));
+            }
+        }
+        if t.active() {
+            if t.runnable() || spurious_ok {
+                acts.push(Act::Poll);
+            }
+            if t.pending_polls > 0 && !others.is_empty() {
+                acts.push(Act::GiveUp);
+            }
+        }
+        if others.is_empty() {
+            // everything released: only the executor-faithful continuation
+            if t.active() {
+                if t.runnable() {
+                    trace.push("P!");
+                    match t.poll() {
+                        Ok(true) => {}
+                        Ok(false) => f.add(
+                            "pending-with-unique-owner",
+                            "every other handle has been released and the waker fired, yet take() is still Pending",
+                        ),
+                        Err(()) => f.add("none-for-first-taker", "the only take() in progress resolved to None"),
+                    }
+                } else {
+                    // Pending, nobody left to wake it
+                    let class = if last_rel == Some(Rel::Take2) {
+                        "stuck/last-handle-released-by-second-take"
+                    } else if last_rel == Some(Rel::TakeUnpolled) {
+                        "stuck/last-handle-released-by-unpolled-take"
+                    } else if t.sig.wakes() == 0 {
+                        "stuck/never-woken"
+                    } else {
+                        "stuck/woken-before-release"
+                    };
+                    stuck = Some(class);
+                    f.add(
+                        class,
+                        format!(
+                            "single thread: every other handle is gone, take() is Pending and its waker will never fire again \
+                             (wakes so far {}, polls {}); last release kind {:?}",
+                            t.sig.wakes(),
+                            t.polls,
+                            last_rel
+                        ),
+                    );
+                }
+            }
+            break;
+        }
+        if acts.is_empty() {
+            break;
+        }
+        match acts[ch.choose(acts.len())] {
+            Act::Rel(r) => {
+                trace.push(r.trace_code());
+                if log.closed.load(Ordering::SeqCst) != 0 {
+                    f.add("closed-while-held", "descriptor closed while a handle is alive");
+                }
+                let h = others.pop().unwrap();
+                assert_eq!(h.magic, MAGIC);
+                waiting_at_last_release = t.active() && t.pending_polls > 0;
+                if let Err(c) = release(h, r) {
+                    f.add(c, "a second take() while the first is pending must resolve to None at once");
+                }
+                used[r.idx()] += 1;
+                last_rel = Some(r);
+                spurious_ok = true;
+            }
+            Act::Poll => {
+                let woken = t.runnable();
+                trace.push(if woken { "P" } else { "Ps" });
+                if !woken {
+                    spurious_ok = false;
+                }
+                let alive = others.len();
+                match t.poll() {
+                    Ok(true) => {
+                        if alive > 0 {
+                            f.add("ready-while-shared", format!("take() resolved while {alive} other handle(s) are alive"));
+                        }
+                    }
+                    Ok(false) => {}
+                    Err(()) => f.add("none-for-first-taker", "the only take() in progress resolved to None"),
+                }
+            }
+            Act::GiveUp => {
+                trace.push("G");
+                t.give_up();
+            }
+        }
+    }
+    let prepolled = trace.iter().position(|s| s.starts_with('P')).is_some_and(|p| trace[..p].iter().all(|s| !s.starts_with('R')));
+    let outcome = stuck.unwrap_or("");
+    let fin = finish(&mut t, &log, main_tid, f);
+    let t_polls = t.polls;
+    let mut sig = String::with_capacity(96);
+    push_kv(&mut sig, "seq:k", k);
+    sig.push(':');
+    kinds_string(&mut sig, &used);
+    sig.push_str(":last");
+    sig.push_str(last_rel.map_or("-", |r| r.code()));
+    push_kv(&mut sig, ":pre", prepolled as usize);
+    push_kv(&mut sig, ":wait", waiting_at_last_release as usize);
+    push_kv(&mut sig, ":polls", t_polls.min(4));
+    sig.push(':');
+    sig.push_str(fin);
+    if !outcome.is_empty() {
+        sig.push(':');
+        sig.push_str(outcome);
+    }
+    SeqResult { sig, trace }
+}
+
+// ---------------------------------------------------------------------------
+// threaded programs
+// ---------------------------------------------------------------------------
+
+#[derive(Clone, Debug)]
+struct ThrProgram {
+    k: usize,
+    threads: usize,
+    /// handle i is released by thread assign[i]
+    assign: Vec<usize>,
+    kinds: Vec<Rel>,
+    /// yield before releasing handle i
+    yields: Vec<bool>,
+    /// the taker polls once before the other threads start
+    prepoll: bool,
+    /// taker drops its future after this many Pending polls
+    giveup: Option<usize>,
+}
+
+impl ThrProgram {
+    fn gen_random(rng: &mut Rng, allow_silent: bool) -> Self {
+        let k = rng.range(1, 4);
+        let threads = rng.range(1, 3.min(k.max(1)));
+        let silent = allow_silent && rng.chance(1, 4);
+        let kinds: Vec<Rel> = (0..k)
+            .map(|_| {
+                if silent && rng.chance(1, 2) {
+                    *rng.pick(&[Rel::Take2, Rel::TakeUnpolled])
+                } else if rng.chance(1, 5) {
+                    Rel::CloneDrop
+                } else {
+                    Rel::Drop
+                }
+            })
+            .collect();
+        let has_take2 = kinds.contains(&Rel::Take2);
+        Self {
+            k,
+            threads,
+            // every thread gets at least one handle when k >= threads
+            assign: {
+                let mut a: Vec<usize> = (0..k).map(|i| if i < threads { i } else { rng.below(threads) }).collect();
+                rng.shuffle(&mut a);
+                a
+            },
+            kinds,
+            yields: (0..k).map(|_| rng.chance(1, 3)).collect(),
+            prepoll: has_take2 || rng.chance(2, 3),
+            giveup: rng.chance(1, 6).then(|| rng.range(1, 2)),
+        }
+    }
+
+    fn to_json(&self) -> vcommon::Value {
+        json!({"kind": "thr", "k": self.k, "threads": self.threads, "assign": self.assign,
+               "kinds": self.kinds.iter().map(|r| r.code()).collect::<Vec<_>>(), "yields": self.yields,
+               "prepoll": self.prepoll, "giveup": self.giveup})
+    }
+
+    fn from_json(v: &vcommon::Value) -> Option<Self> {
+        Some(Self {
+            k: v["k"].as_u64()? as usize,
+            threads: v["threads"].as_u64()? as usize,
+            assign: v["assign"].as_array()?.iter().map(|x| x.as_u64().unwrap_or(0) as usize).collect(),
+            kinds: v["kinds"]
+                .as_array()?
+                .iter()
+                .map(|x| RELS.iter().copied().find(|r| Some(r.code()) == x.as_str()))
+                .collect::<Option<Vec<_>>>()?,
+            yields: v["yields"].as_array()?.iter().map(|x| x.as_bool().unwrap_or(false)).collect(),
+            prepoll: v["prepoll"].as_bool()?,
+            giveup: v["giveup"].as_u64().map(|x| x as usize),
+        })
+    }
+
+    fn has_silent(&self) -> bool {
+        self.kinds.iter().any(|r| r.silent())
+    }
+}
+
+fn run_thr(p: &ThrProgram, f: &mut Findings) -> String {
+    let log = Arc::new(ProbeLog::default());
+    let main_tid = thread::current().id();
+    let root = SharedFd::new(ProbeFd { log: log.clone(), magic: MAGIC });
+    let mut per_thread: Vec<Vec<(SharedFd<ProbeFd>, Rel, bool)>> = (0..p.threads).map(|_| Vec::new()).collect();
+    for i in 0..p.k {
+        per_thread[p.assign[i] % p.threads].push((root.clone(), p.kinds[i], p.yields[i]));
+    }
+    let mut t = Taker::new(root);
+    let started = Arc::new(AtomicUsize::new(0));
+    let thread_findings = Arc::new(Mutex::new(Vec::<(&'static str, &'static str)>::new()));
+    let mut ready_early = false;
+    if p.prepoll {
+        match t.poll() {
+            Ok(false) => {}
+            Ok(true) => {
+                ready_early = true;
+                f.add("ready-while-shared", format!("take() resolved while {} other handle(s) are alive", p.k));
+            }
+            Err(()) => f.add("none-for-first-taker", "the only take() in progress resolved to None"),
+        }
+    }
+    let hs: Vec<_> = per_thread
+        .into_iter()
+        .map(|work| {
+            let (sig, started, log, tf) = (t.sig.clone(), started.clone(), log.clone(), thread_findings.clone());
+            thread::spawn(move || {
+                for (h, kind, y) in work {
+                    if y {
+                        thread::yield_now();
+                    }
+                    // the handle is alive: the descriptor must be usable
+                    if h.magic != MAGIC || log.closed.load(Ordering::SeqCst) != 0 {
+                        tf.lock().unwrap().push(("closed-while-held", "descriptor closed while a handle is alive"));
+                    }
+                    started.fetch_add(1, Ordering::SeqCst);
+                    if let Err(c) = release(h, kind) {
+                        tf.lock().unwrap().push((c, "a second take() while the first is pending must resolve to None at once"));
+                    }
+                    sig.release_done();
+                }
+            })
+        })
+        .collect();
+
+    // ---- the executor: poll, then sleep until woken (or until nothing can
+    // wake us any more)
+    let mut stuck: Option<&'static str> = None;
+    let mut polls_after_all_done = 0;
+    let mut woken_polls = 0;
+    while t.active() {
+        if t.polls > 0 {
+            // sleep until woken or until every release has returned
+            let (woken, all_done) = t.sig.sleep(t.snap, p.k);
+            if !woken {
+                debug_assert!(all_done);
+                // Every other handle is gone (its release call has returned),
+                // the last poll began after the last wake and said Pending.
+                let class = if p.has_silent() {
+                    "stuck/program-with-second-take"
+                } else if t.sig.wakes() == 0 {
+                    "stuck/never-woken"
+                } else {
+                    "stuck/woken-before-release"
+                };
+                stuck = Some(class);
+                // diagnostic only: would a spurious poll have resolved it?
+                let probe = t.poll();
+                f.add(
+                    class,
+                    format!(
+                        "every other handle has been released (all {} release calls returned) but take() is Pending and its \
+                         waker did not fire after the taker's last poll began: it never completes under an executor \
+                         (wakes in total {}, polls {}, a spurious extra poll gives {})",
+                        p.k,
+                        t.sig.wakes(),
+                        t.polls - 1,
+                        match probe {
+                            Ok(true) => "Ready(Some)",
+                            Ok(false) => "Pending",
+                            Err(()) => "Ready(None)",
+                        }
+                    ),
+                );
+                break;
+            }
+            woken_polls += 1;
+            if all_done {
+                polls_after_all_done += 1;
+            }
+            if let Some(n) = p.giveup {
+                if t.pending_polls >= n {
+                    t.give_up();
+                    break;
+                }
+            }
+            let all_done_before = all_done;
+            match t.poll() {
+                Ok(true) => {}
+                Ok(false) => {
+                    if all_done_before {
+                        f.add(
+                            "pending-with-unique-owner",
+                            "every other release had returned before this poll began and the waker had fired, yet take() is Pending",
+                        );
+                        break;
+                    }
+                }
+                Err(()) => f.add("none-for-first-taker", "the only take() in progress resolved to None"),
+            }
+        } else {
+            // first poll, racing with the releases
+            match t.poll() {
+                Ok(_) => {}
+                Err(()) => f.add("none-for-first-taker", "the only take() in progress resolved to None"),
+            }
+        }
+        if t.got.is_some() && !ready_early && started.load(Ordering::SeqCst) < p.k {
+            f.add(
+                "ready-while-shared",
+                format!("take() resolved although only {} of {} other handles had begun to be released", started.load(Ordering::SeqCst), p.k),
+            );
+        }
+    }
+    for h in hs {
+        h.join().expect("releasing thread");
+    }
+    for (c, w) in thread_findings.lock().unwrap().drain(..) {
+        f.add(c, w);
+    }
+    let wakes = t.sig.wakes();
+    let polls = t.polls;
+    let fin = finish(&mut t, &log, main_tid, f);
+    let mut used = [0usize; 4];
+    for r in &p.kinds {
+        used[r.idx()] += 1;
+    }
+    let mut sig = String::with_capacity(128);
+    push_kv(&mut sig, "thr:k", p.k);
+    push_kv(&mut sig, ":t", p.threads);
+    sig.push(':');
+    kinds_string(&mut sig, &used);
+    push_kv(&mut sig, ":pre", p.prepoll as usize);
+    push_kv(&mut sig, ":give", p.giveup.unwrap_or(0));
+    push_kv(&mut sig, ":polls", polls.min(4));
+    push_kv(&mut sig, ":wakes", wakes.min(3));
+    push_kv(&mut sig, ":wp", woken_polls.min(3));
+    push_kv(&mut sig, ":late", polls_after_all_done.min(2));
+    sig.push(':');
+    sig.push_str(fin);
+    if let Some(c) = stuck {
+        sig.push(':');
+        sig.push_str(c);
+    }
+    sig
+}
+
+// ---------------------------------------------------------------------------
+// driver
+// ---------------------------------------------------------------------------
+
+fn report_findings(rep: &mut Report, f: Findings, replay: vcommon::Value, leg_kind: &str) -> bool {
+    let bad = !f.v.is_empty();
+    for (sig, what) in f.v {
+        rep.violation(&sig, &format!("[{leg_kind}] {what}"), replay.clone());
+    }
+    bad
+}
+
+/// Returns false if the program belongs to another shard (nothing recorded).
+fn eval_seq(ch: &mut dyn Chooser, kmax: usize, kinds_mask: usize, rep: &mut Report, own: &dyn Fn(&[usize]) -> bool) -> bool {
+    // The program *is* its execution here, so ownership is decided afterwards
+    // (by choice prefix); findings of foreign programs are discarded.
+    let mut f = Findings::default();
+    let r = panics::catch(|| run_seq(ch, kmax, kinds_mask, &mut f));
+    let trace = ch.trace();
+    if !own(&trace) {
+        return false;
+    }
+    match r {
+        Ok(res) => {
+            rep.eval(Some(res.sig.clone()));
+            if rep.want_sample() {
+                rep.sample(json!({"kind": "seq", "choices": trace, "trace": res.trace, "signature": res.sig}));
+            }
+            report_findings(rep, f, json!({"kind": "seq", "choices": trace, "kmax": kmax, "kinds_mask": kinds_mask, "trace": res.trace}), "seq");
+        }
+        Err(info) => match info.origin() {
+            panics::Origin::Repo(_) => rep.violation(
+                &format!("C06/sharedfd-take/{}", info.sig()),
+                &format!("panic inside compio: {}", info.message),
+                json!({"kind": "seq", "choices": trace, "kmax": kmax, "kinds_mask": kinds_mask}),
+            ),
+            _ => rep.inconclusive(&format!("harness panic: {} at {}:{}", info.message, info.file, info.line)),
+        },
+    }
+    true
+}
+
+fn eval_thr(p: &ThrProgram, rep: &mut Report) -> bool {
+    let mut f = Findings::default();
+    match panics::catch(|| run_thr(p, &mut f)) {
+        Ok(sig) => {
+            rep.floor("thr-saw-pending-then-woken", sig.contains(":wp1") || sig.contains(":wp2") || sig.contains(":wp3"));
+            rep.floor("thr-saw-taken", sig.ends_with(":taken"));
+            rep.eval(Some(sig.clone()));
+            if rep.want_sample() {
+                rep.sample(json!({"program": p.to_json(), "signature": sig}));
+            }
+            report_findings(rep, f, json!({"program": p.to_json(), "reps": 3000}), "thr")
+        }
+        Err(info) => {
+            match info.origin() {
+                panics::Origin::Repo(_) => rep.violation(
+                    &format!("C06/sharedfd-take/{}", info.sig()),
+                    &format!("panic inside compio: {}", info.message),
+                    json!({"program": p.to_json(), "reps": 3000}),
+                ),
+                _ => rep.inconclusive(&format!("harness panic: {} at {}:{}", info.message, info.file, info.line)),
+            }
+            true
+        }
+    }
+}
+
+pub fn main(args: &Args) {
+    let leg = args.str("leg", "native");
+    let mut rep = Report::from_args("C06", &leg, args);
+    let shard = args.shard();
+    let nshards = args.nshards();
+    rep.note(
+        "c06a: SharedFd<ProbeFd> of compio-driver built with feature `sync` (Arc + AtomicWaker); the `unsync` flavour cannot \
+         be linked into the same binary (crate-wide feature) and is not covered by this leg",
+    );
+    if let Some(path) = args.get("replay") {
+        let text = std::fs::read_to_string(path).expect("replay file");
+        let v: vcommon::Value = vcommon::serde_json::from_str(&text).expect("replay json");
+        let pr = &v["program"];
+        if pr["kind"] == "seq" {
+            let choices: Vec<usize> = pr["choices"].as_array().map(|a| a.iter().map(|x| x.as_u64().unwrap_or(0) as usize).collect()).unwrap_or_default();
+            let mut ch = ReplayChooser::new(choices);
+            eval_seq(&mut ch, pr["kmax"].as_u64().unwrap_or(4) as usize, pr["kinds_mask"].as_u64().unwrap_or(15) as usize, &mut rep, &|_| true);
+        } else if let Some(p) = ThrProgram::from_json(&pr["program"]) {
+            // schedule dependent: repeat
+            let reps = args.usize("reps", pr["reps"].as_u64().unwrap_or(3000) as usize);
+            let reps = if cfg!(miri) { reps.min(400) } else { reps };
+            for _ in 0..reps {
+                if eval_thr(&p, &mut rep) || rep.out_of_time() {
+                    break;
+                }
+            }
+        } else {
+            rep.inconclusive("replay file has no c06a program (crash replays carry only stderr)");
+        }
+        rep.finish();
+        return;
+    }
+
+    // ---- single-threaded enumeration of all orders
+    let kmax = args.usize("seq-k", 4).min(4);
+    let kinds_mask = args.usize("kinds", 0xf) & 0xf;
+    if kmax > 0 {
+        let mut od = Odo::default();
+        let mut total: u64 = 0;
+        let mut complete = true;
+        const PREFIX: usize = 3;
+        let own = |t: &[usize]| {
+            let h = t.iter().take(PREFIX).fold(0xcbf29ce484222325u64, |h, x| (h ^ *x as u64).wrapping_mul(0x100000001b3));
+            (h >> 7) % nshards == shard
+        };
+        while od.advance() {
+            if !eval_seq(&mut od, kmax, kinds_mask, &mut rep, &own) {
+                od.prune(PREFIX);
+                continue;
+            }
+            total += 1;
+            if rep.out_of_time() {
+                complete = false;
+                break;
+            }
+        }
+        rep.set_exhaustive(complete);
+        rep.count("seq_programs", total as i64);
+        rep.note(format!(
+            "seq: all orders of release(kind)/poll/give-up for k<={kmax} other handles, kinds mask {kinds_mask:#x}, single thread, complete={complete}"
+        ));
+    }
+
+    // ---- threaded programs
+    let iters = args.iters(if cfg!(miri) { 120 } else { 3000 }, if cfg!(miri) { 2500 } else { 60_000 });
+    let allow_silent = args.usize("silent", 1) != 0;
+    let base = Rng::new(args.seed()).fork(shard + 1);
+    // Shift Miri's own schedule stream per shard (its seed is per process).
+    for _ in 0..(shard * 5 + args.seed() % 7) {
+        thread::yield_now();
+    }
+    for i in 0..iters {
+        if rep.out_of_time() {
+            break;
+        }
+        let mut rng = base.fork(i as u64);
+        let p = ThrProgram::gen_random(&mut rng, allow_silent);
+        eval_thr(&p, &mut rep);
+    }
+    rep.finish();
 }
